@@ -346,7 +346,18 @@ def _(E, a, o):
 
 @site("histogram2d", "hist", ["x", "x"])
 def _(E, a, o):
-    return E["stat"].histogram2d(a[0], a[1], nx=3, ny=4, rev=o.get("rev", False), more=o.get("more", False))
+    kw = {}
+    if o.get("limits"):
+        # explicit limits: wide enough to cut nothing, or cutting some of the points, on one axis or both
+        for nm, v in (("x", np.asarray(a[0], dtype="f8")), ("y", np.asarray(a[1], dtype="f8"))):
+            f = v[np.isfinite(v)]
+            if f.size == 0 or (nm == "y" and o.get("select", 1) % 3 == 0):
+                continue
+            if o.get("select", 1) % 2:
+                kw[nm + "min"], kw[nm + "max"] = float(f.min()) - 1.0, float(f.max()) + 1.0
+            else:
+                kw[nm + "min"] = float(np.median(f))
+    return E["stat"].histogram2d(a[0], a[1], nx=3, ny=4, rev=o.get("rev", False), more=o.get("more", False), **kw)
 
 
 @site("Binner", "hist", ["x", "x", "w"])
@@ -537,6 +548,14 @@ def _(E, a, o):
 @site("HTM.match(perpoint)", "htm", ["lon", "lat", "lon", "lat", "rad"])
 def _(E, a, o):
     return _htm(E, o, cap=6).match(a[0], a[1], a[2], a[3], a[4], maxmatch=o.get("maxmatch", -1))   # radii <= 5 deg
+
+
+@site("Matcher", "htm", ["lon", "lat", "lon", "lat"])
+def _(E, a, o):
+    # the reusable matcher built directly from the caller's catalogue, then asked once
+    d = min(o.get("depth", 6), 10, {0.5: 8, 5.0: 6, 40.0: 3}.get(o.get("radius", 5.0), 3))
+    m = E["htm"].Matcher(d, a[0], a[1])
+    return m.match(a[2], a[3], o.get("radius", 5.0), maxmatch=o.get("maxmatch", 1))
 
 
 @site("HTM.bincount", "htm", ["lon", "lat", "lon", "lat", "w"])
